@@ -24,7 +24,7 @@ func checkC17(c *an.Ctx) {
 	ld := p.Func("internal/config", "Loader", "load")
 	ldir := p.Func("internal/config", "Loader", "loadDir")
 	load := p.Func("internal/config", "Loader", "Load")
-	glob := p.Func("internal/config", "Loader", "LoadGlobalConfig")
+	glob, globAPI := globalLoader(p)
 	if ld == nil || ldir == nil || load == nil || glob == nil {
 		c.Und("C17.0", "config.(*Loader).load", token.NoPos, "load / loadDir / Load / LoadGlobalConfig not found")
 		return
@@ -111,7 +111,30 @@ func checkC17(c *an.Ctx) {
 		c.Und("C17.1", an.Short(ld)+":recursion", ld.Pos(), "load/loadDir never load an import")
 	}
 	// mark before read
-	if okMark, why := vt.marksBefore(ld, ld.Params[1], setField); okMark {
+	okMark, why := vt.marksBefore(ld, ld.Params[1], setField)
+	if !okMark {
+		// the mark may be the callers' business: every call of load, wherever it is, is preceded on every path by
+		// the insertion of the name it passes on
+		sites := p.CallSitesOf(ld)
+		all := len(sites) > 0
+		for _, site := range sites {
+			if !an.InModule(site.Parent()) {
+				continue
+			}
+			in, isIn := site.(ssa.Instruction)
+			if !isIn {
+				all = false
+				continue
+			}
+			vt.sites[in] = true
+			if !vt.callerMarksBefore(site.Parent(), in, 1, setField) {
+				all = false
+				why += "; " + an.Short(site.Parent()) + " calls load at " + p.Pos(site.Pos()) + " without marking the name first"
+			}
+		}
+		okMark = all
+	}
+	if okMark {
 		c.OK("C17.1", an.Short(ld)+":mark", ld.Pos(), "the file is marked visited before it is read and before any import is followed")
 	} else {
 		c.Bad("C17.1", an.Short(ld)+":mark", ld.Pos(), "load does not mark the file it is about to read as visited before reading it / following its imports (%s): a file importing itself (directly or through others) is loaded again and again", why)
@@ -137,7 +160,11 @@ func checkC17(c *an.Ctx) {
 			if fn == load {
 				// reset written inline: it must come before anything is loaded
 				atStart = true
-				for _, name := range []string{"(*internal/config.Loader).load", "(*internal/config.Loader).LoadGlobalConfig"} {
+				names := []string{"(*internal/config.Loader).load", "(*internal/config.Loader).LoadGlobalConfig"}
+				if glob != nil {
+					names = append(names, an.Short(glob))
+				}
+				for _, name := range names {
 					for _, ci := range an.CallsIn(load, name) {
 						if !an.Dominates(st, ci) {
 							atStart = false
@@ -483,9 +510,14 @@ func checkC17(c *an.Ctx) {
 
 	// C17.5
 	var gsite, lsite ssa.CallInstruction
-	for _, s := range p.CallSitesOf(glob) {
-		if s.Parent() == load {
-			gsite = s
+	for _, g := range []*ssa.Function{glob, globAPI} {
+		if g == nil {
+			continue
+		}
+		for _, s := range p.CallSitesOf(g) {
+			if s.Parent() == load {
+				gsite = s
+			}
 		}
 	}
 	for _, s := range p.CallSitesOf(ld) {
